@@ -11,6 +11,16 @@ BOUNDS = {
         "outside": "JSON (serde) codec; what bls12_381_plus itself accepts as a point/scalar (the model codecs are canonical by construction: flag byte, zero padding, value < Q)",
     },
 }
+BOUNDS["C10"] = {
+    "quick": "i2osp: every usize; hash_to_scalar: (msg,dst) lengths (0,0),(1,3),(5,40),(33,255),(2,256); KeyGen: ikm 0/31/32/33 octets (4 symbolic), key_info None/empty/1/2 octets, key_dst None/empty/3 octets, key_info 65536; generators: count <= 2, five api_id shapes; messages of 0/1/3 octets; blind challenge over <= 2 generators; both suites",
+    "thorough": "as quick plus count <= 4, messages up to 64 octets, further dst/ikm lengths",
+    "outside": "composite operations (sign, proof generation, verifiers, blind issuance) as differential checks; interleavings on threads; counts > 4; long messages",
+}
+BOUNDS["C12"] = {
+    "quick": "n <= 3, every position 0..=n plus usize::MAX and usize::MAX-1, one-octet old/new messages, arbitrary (A, e) and sk; one suite per shape chosen by seed",
+    "thorough": "n <= 5, both suites",
+    "outside": "n > 5; executing chains of updates (covered by the inductive argument only); verification of the result through verify()",
+}
 ASSUMPTIONS = {
     "*": [
         "bls12_381_plus is replaced by a prime-order bilinear group model (elements = discrete logs mod Q, Q in {13,31,251}); its real field/curve/pairing arithmetic and codecs are outside the claim",
@@ -24,4 +34,6 @@ ASSUMPTIONS = {
         "declared counts (n of update_signature) count as input size",
     ],
     "C09": [],
+    "C10": ["the reference transcription (harness/src/reference.rs) is validated against all fixture files of both suites on the real crates by `zkreplay fixtures` (60 values)"],
+    "C12": ["stub Generators::create -> fixed pure table (2+3i)", "sk + e != 0 and B' != identity"],
 }
